@@ -52,3 +52,53 @@ def support(m, meta):
                 if got_k != exp_k:
                     bad.append(("KittyImage.is_supported", (name, version, reply), got_k, "expected", exp_k))
     return {"reproduced": bool(bad), "input": "terminal name x version x graphics-query reply", "observed": [repr(b)[:300] for b in bad[:4]]}
+
+
+def name_version(m, meta):
+    """get_terminal_name_version on scripted replies (query_terminal / read_tty replaced by stubs that record their use)"""
+    import os
+    import term_image            # NOT the tests package here: it replaces get_terminal_name_version by a stub
+    import term_image.utils as U
+    from term_image import _ctlseqs as C
+    problems = []
+    saved = (U.query_terminal, U.read_tty, dict(os.environ))
+    fn = U.get_terminal_name_version
+    fn = getattr(fn, "__wrapped__", fn)
+    try:
+        for reply, exp_reply in ((b"\x1bP>|WezTerm 20230712\x1b\\\x1b[", ("wezterm", "20230712")), (b"\x1bP>|kitty(0.31.0)\x1b\\\x1b[", ("kitty", "0.31.0")),
+                                 (b"\x1bP>|XTerm(388)\x07\x1b[", ("xterm", "388")), (b"\x1b[", None), (b"", None), (None, None)):
+            for env in ({}, {"TERM_PROGRAM": "Konsole", "TERM_PROGRAM_VERSION": "23.08"}, {"TERM_PROGRAM": "Apple_Terminal"}):
+                for enabled in (True, False):
+                    calls = {"q": [], "r": 0}
+
+                    def q(request, more, timeout=None):
+                        calls["q"].append((request, more))
+                        return reply if U._queries_enabled else None
+
+                    def r(*a, **k):
+                        calls["r"] += 1
+                        if a or k:
+                            problems.append(("drain called with arguments", a, k))
+                        return b"?62;c"
+                    U.query_terminal, U.read_tty = q, r
+                    for k_ in ("TERM_PROGRAM", "TERM_PROGRAM_VERSION"):
+                        os.environ.pop(k_, None)
+                    os.environ.update(env)
+                    (term_image.enable_queries if enabled else term_image.disable_queries)()
+                    got = tuple(fn())
+                    if enabled and exp_reply:
+                        exp = exp_reply
+                    else:
+                        exp = (env.get("TERM_PROGRAM", None) and env["TERM_PROGRAM"].lower(), env.get("TERM_PROGRAM_VERSION"))
+                    if got != exp or calls["r"] != (1 if enabled else 0):
+                        problems.append({"reply": reply, "env": env, "queries_enabled": enabled, "got": got, "expected": exp, "drains": calls["r"]})
+                    if enabled and calls["q"]:
+                        req, more = calls["q"][0]
+                        if req != C.XTVERSION_b + C.DA1_b or more(bytearray(b"abc" + C.CSI_b)) or not more(bytearray(b"\x1bP>|x(1)\x1b\\")):
+                            problems.append(("request / stop predicate", req))
+    finally:
+        U.query_terminal, U.read_tty = saved[0], saved[1]
+        os.environ.clear()
+        os.environ.update(saved[2])
+        term_image.enable_queries()
+    return {"reproduced": bool(problems), "input": "scripted XTVERSION replies x environment x queries on/off", "observed": [repr(p)[:300] for p in problems[:3]]}
